@@ -45,6 +45,29 @@ def make_array(rng, n, shape):
             out += [v] * (c - prev)
             prev = c
         return out[:n] + [vals[-1]] * (n - len(out[:n]))
+    if shape == "starved":
+        # one half with next to no distinct values, the other a staircase of singles beside one long constant run: the
+        # in-place merge must take its internal buffer from the far half and put it back afterwards
+        vals = sorted({gen_instant(rng, pool) for _ in range(200)}, key=key)
+        if len(vals) < 8 or n < 8:
+            return [rng.choice(vals) for _ in range(n)]
+        half = n // 2 + rng.choice([0, 0, 0, -1, 1, -n // 4, n // 4])
+        k = min(rng.choice([5, 16, 22, 23, 24, 25, 32, 40, 64]), len(vals) - 2, max(1, (n - half) // 2))
+        lo = rng.randrange(0, len(vals) - k)
+        stairs = vals[lo:lo + k]
+        rest = [v for v in vals if v not in stairs]
+        run_v = rng.choice(rest)
+        poor_v = rng.sample(rest, rng.choice([1, 1, 2, 3]))
+        rich = []
+        for v in stairs:
+            rich += [v] * rng.choice([1, 1, 1, 2])
+        fill = [run_v] * max(0, (n - half) - len(rich))
+        rich = (rich + fill) if rng.random() < 0.7 else (fill + rich)
+        rich = rich[:n - half]
+        if rng.random() < 0.8:
+            rich.sort(key=key)
+        poor = sorted((rng.choice(poor_v) for _ in range(n - len(rich))), key=key)
+        return (poor + rich) if rng.random() < 0.6 else (rich + poor)
     a = [gen_instant(rng, pool) for _ in range(n)]
     if shape == "random":
         return a
@@ -74,7 +97,7 @@ def make_array(rng, n, shape):
     return a
 
 
-SHAPES = ["random", "sorted", "reversed", "few", "fewruns", "equal", "sawtooth", "oneswap", "blocks"]
+SHAPES = ["random", "sorted", "reversed", "few", "fewruns", "equal", "sawtooth", "oneswap", "blocks", "starved"]
 
 
 def lenclass(n):
@@ -187,8 +210,8 @@ def main(tier):
     run = Run(PROP, tier)
     for p in pmap(worker, [(root, run.seed, tier, w, NCPU) for w in range(NCPU)]):
         run.merge(p)
-    run.cov["rule"] = ("arrays of every length 0..300 and around 2^k, 3*2^k, 511..514, 1023..1026, 4096 x 9 shapes "
-                       "(random, sorted, reversed, few keys, all equal, sawtooth, one swap, sorted blocks) x "
+    run.cov["rule"] = ("arrays of every length 0..300 and around 2^k, 3*2^k, 511..514, 1023..1026, 4096 x 10 shapes "
+                       "(random, sorted, reversed, few keys, few runs, all equal, sawtooth, one swap, sorted blocks, one half starved of distinct keys) x "
                        "{instants, events with serial oids}; distinct = (kind, length class, shape) with >=2 distinct keys")
     run.assumptions = ["documented order = echs_instant_lt_p's: all-day before timed of the same day, all-second before ms 0",
                        "stability is observable for events only (serial in oid); instants that compare equal are identical"]
